@@ -640,19 +640,52 @@ class tt_union_rows(Contract):
     qual = "pyttb.pyttb_utils.tt_union_rows"
     props = ("C17", "C03")
     doc = (
-        "For arbitrary non-empty A and B (rows may repeat): the result lists, without repetition, exactly the rows that "
+        "For arbitrary A and B (rows may repeat): the result lists, without repetition, exactly the rows that "
         "occur in A or in B -- first the distinct rows of B that do not occur in A, then the distinct rows of A, each group "
-        "in order of first occurrence."
+        "in order of first occurrence; if one operand has no rows, the distinct rows of the other one."
     )
 
+    def case_names(self):
+        return ["non-empty", "A-empty", "B-empty"]
+
     def setup(self, S, case):
-        n, m = S.int("n", 1), S.int("m", 1)
+        if case != "non-empty":
+            S.ctx.select_count_fact = True   # "a selection that skips nothing selects everything" (lemma L8)
+        n = S.int("n", 1) if case != "A-empty" else 0
+        m = S.int("m", 1) if case != "B-empty" else 0
         c = S.int("c", 1)
         A = S.row_matrix("A", n, c)
         B = S.row_matrix("B", m, c)
-        return dict(MatrixA=A, MatrixB=B)
+        return dict(MatrixA=A, MatrixB=B, __case__=case)
+
+    def _one_sided(self, S, a, ret):
+        """One operand has no rows: the result lists the distinct rows of the other one, in order of first occurrence."""
+        A, B = a["MatrixA"], a["MatrixB"]
+        X = B if a["__case__"] == "A-empty" else A
+        k, rx = X.shape[0], X.rowfn
+        yield "matrix", isinstance(ret, Arr) and ret.ndim == 2
+        L = ret.shape[0]
+        rr = N.ensure_rows(S.ctx, ret)
+        t, u, i = z3.Int("un!t"), z3.Int("un!u"), z3.Int("un!i")
+        g = S.body_ghosts
+        ux = next((e for e in g.get("unique@src", []) if e["rowfn"] is rx), None)
+        px = next((e["ghost"] for e in g.get("argsort@src", []) if ux is not None and e["src"] is ux["idx_arr"]), None)
+        if ux is None or px is None:
+            raise PathAbort("tt_union_rows contract: expected ghosts of unique / argsort of the non-empty operand")
+        (mX, idxX, invX), (pX, pinvX) = ux["ghost"], px
+        yield "length-is-the-number-of-distinct-rows", S.eq(L, mX)
+        src = lambda t_: idxX(pX(t_))
+        yield "lemma:result-rows-are-rows-of-the-operand", T.ForAll(
+            [t], z3.Implies(z3.And(0 <= t, T.tz(t < L)), z3.And(0 <= src(t), T.tz(src(t) < k), rr(t) == rx(src(t)))), [rr(t)]), "lemma"
+        w = lambda i_: pinvX(invX(i_))
+        yield "every-row-of-the-operand-occurs", T.ForAll([i], z3.Implies(z3.And(0 <= i, T.tz(i < k)), z3.And(0 <= w(i), T.tz(w(i) < L), rr(w(i)) == rx(i))), [rx(i)])
+        yield "rows-pairwise-distinct", T.ForAll([t, u], z3.Implies(z3.And(0 <= t, t < u, T.tz(u < L)), rr(t) != rr(u)))
+        yield "in-order-of-first-occurrence", T.ForAll([t, u], z3.Implies(z3.And(0 <= t, t < u, T.tz(u < L)), src(t) < src(u)))
 
     def ensures(self, S, a, ret):
+        if a.get("__case__") in ("A-empty", "B-empty"):
+            yield from self._one_sided(S, a, ret)
+            return
         A, B = a["MatrixA"], a["MatrixB"]
         n, m = A.shape[0], B.shape[0]
         ra, rb = A.rowfn, B.rowfn
@@ -686,3 +719,126 @@ class tt_union_rows(Contract):
             [j], z3.Implies(z3.And(0 <= j, T.tz(j < m)), z3.And(0 <= sj(j), sj(j) < mB, rb(idxB(pB(sj(j)))) == rb(j))), [rb(j)]), "lemma"
         yield "every-row-of-B-occurs", T.ForAll([j], z3.Implies(z3.And(0 <= j, T.tz(j < m)), z3.And(0 <= wB(j), T.tz(wB(j) < L), rr(wB(j)) == rb(j))), [rb(j)])
         yield "rows-pairwise-distinct", T.ForAll([t, u], z3.Implies(z3.And(0 <= t, t < u, T.tz(u < L)), rr(t) != rr(u)))
+
+
+# ======================================================================= Khatri-Rao product
+
+I_ = z3.IntSort()
+
+
+def _kr_spec(S, p, rows, M, R, eff, tag):
+    """Specification: the column-wise Kronecker product of the matrices M(eff(0)), ..., M(eff(k)) by left fold.
+
+        KR_0[q, r]  = M_0[q, r]                                  Q_0 = rows_0
+        KR_k[q, r]  = KR_{k-1}[q div I_k, r] * M_k[q mod I_k, r]  Q_k = Q_{k-1} * I_k     (I_k = rows of M_k)
+
+    i.e. column r of KR_k is kron(column r of KR_{k-1}, column r of M_k): the index of the last matrix varies fastest.
+    These are the defining equations of the spec functions W (entries) and Q (row counts), not assumptions on the code."""
+    from pyvc.values import SymList  # noqa: F401
+    W = z3.Function(T.fresh_name(tag + "_KR"), I_, I_, I_, z3.RealSort())
+    Q = z3.Function(T.fresh_name(tag + "_Q"), I_, I_)
+    k, q, r = z3.Int(tag + "!k"), z3.Int(tag + "!q"), z3.Int(tag + "!r")
+    S.assume(T.ForAll([q, r], W(0, q, r) == M(eff(0), q, r), [W(0, q, r)]))
+    S.assume(T.ForAll([k, q, r], z3.Implies(k >= 1, W(k, q, r) == M(eff(k), q % rows(eff(k)), r) * W(k - 1, q / rows(eff(k)), r)), [W(k, q, r)]))
+    S.assume(Q(0) == rows(eff(0)))
+    S.assume(T.ForAll([k], z3.Implies(k >= 1, Q(k) == rows(eff(k)) * Q(k - 1)), [Q(k)]))
+    return W, Q
+
+
+@register
+class khatrirao(Contract):
+    qual = "pyttb.khatrirao.khatrirao"
+    props = ("C17", "C02", "C01")
+    doc = (
+        "khatrirao(M_0, ..., M_{p-1}) for ANY number p >= 1 of real matrices with a common column count R >= 1 (any row "
+        "counts, zero included): the result has prod(rows) rows and R columns and equals the column-wise Kronecker product "
+        "by left fold, KR_k[q, r] = KR_{k-1}[q div I_k, r] * M_k[q mod I_k, r] (the last matrix's row index varies fastest); "
+        "with reverse=True the same for the reversed list.  Loop invariant over the matrices."
+    )
+
+    def case_names(self):
+        return ["forward", "reverse", "any-column-counts"]
+
+    def setup(self, S, case):
+        from pyvc.values import SymList
+        p = S.int("p", 1)
+        rows = z3.Function(T.fresh_name("kr_rows"), I_, I_)
+        cols = z3.Function(T.fresh_name("kr_cols"), I_, I_)
+        M = z3.Function(T.fresh_name("kr_M"), I_, I_, I_, z3.RealSort())
+        m = z3.Int("kr!m")
+        S.assume(T.ForAll([m], rows(m) >= 0, [rows(m)]))
+        S.assume(T.ForAll([m], cols(m) >= 0, [cols(m)]))
+        if case == "any-column-counts":
+            # nothing assumed about the column counts: the call must raise unless they all agree
+            R = cols(0)
+            S.assume(R >= 1)
+            ncol = lambda mm: cols(T.tz(mm))
+        else:
+            R = S.int("R", 1)
+            ncol = lambda mm: R
+        mats = SymList(p, lambda mm: Arr((rows(T.tz(mm)), ncol(mm)), lambda i, j, mm=mm: M(T.tz(mm), T.tz(i), T.tz(j)), "real"), kind="tuple")
+        rev = case == "reverse"
+        eff = (lambda k: p - 1 - k) if rev else (lambda k: T.tz(k))
+        W, Q = _kr_spec(S, p, rows, M, R, eff, "kr")
+        a = dict(matrices=mats, __g__=dict(p=p, R=R, rows=rows, cols=cols, M=M, eff=eff, W=W, Q=Q, free_cols=(case == "any-column-counts")))
+        if rev:
+            a["reverse"] = True
+        return a
+
+    def raises_when(self, S, a):
+        g = a["__g__"]
+        if g["free_cols"]:
+            m = z3.Int("kr!rm")
+            yield "column-counts-differ", T.Exists([m], z3.And(0 <= m, m < g["p"], g["cols"](m) != g["cols"](0)))
+
+    @staticmethod
+    def _inv(S, a, env, i):
+        g = a["__g__"]
+        P = env["P"]
+        rows, M, eff, W, Q, R = g["rows"], g["M"], g["eff"], g["W"], g["Q"], g["R"]
+        i = T.tz(i)
+        if not isinstance(P, Arr):
+            return False
+        if g["free_cols"]:
+            # the validation before the loop established equal column counts; the instance for the matrix of
+            # the coming iteration is carried along (the loop runs over matrices[1:], so that matrix is i + 1)
+            nxt = z3.Implies(i + 1 < g["p"], g["cols"](i + 1) == R)
+        else:
+            nxt = z3.BoolVal(True)
+        if P.ndim == 2:
+            # no iteration done yet: P is still the first matrix (the executor keeps the very object)
+            return z3.And(i == 0, nxt)
+        if P.ndim != 3:
+            return False
+        Pn = N.snap(P)
+        x, q, r = z3.Int("kri!a"), z3.Int("kri!q"), z3.Int("kri!r")
+        A_, B_ = T.tz(Pn.shape[0]), T.tz(Pn.shape[1])
+        return z3.And(nxt, i >= 1, A_ == rows(eff(i)), B_ == Q(i - 1), T.tz(T.eq(Pn.shape[2], R)),
+                      T.ForAll([x, q, r], z3.Implies(z3.And(0 <= x, x < A_, 0 <= q, q < B_, 0 <= r, r < R),
+                                                     T.tz(Pn.fn(x, q, r)) == M(eff(i), x, r) * W(i - 1, q, r)), [Pn.fn(x, q, r)]))
+
+    @staticmethod
+    def _havoc(S, a, env, name):
+        # P is either still the first matrix (2-D) or an arbitrary 3-D array constrained by the invariant
+        if S.ctx.choice("khatrirao:P-is-the-first-matrix"):
+            return env[name]
+        g = a["__g__"]
+        A_, B_ = S.nat("krA"), S.nat("krB")
+        return Arr.fresh("P", (A_, B_, g["R"]), "real")
+
+    loops = {0: dict(modifies=["P"],
+                     inv=lambda S, a, env, i: khatrirao._inv(S, a, env, i),
+                     havoc=lambda S, a, env, name: khatrirao._havoc(S, a, env, name))}
+
+    def ensures(self, S, a, ret):
+        g = a["__g__"]
+        p, R, W, Q = g["p"], g["R"], g["W"], g["Q"]
+        yield "matrix", isinstance(ret, Arr) and ret.ndim == 2
+        if not (isinstance(ret, Arr) and ret.ndim == 2):
+            return
+        yield "row-count-is-the-product-of-the-row-counts", S.eq(ret.shape[0], Q(p - 1))
+        yield "column-count-kept", S.eq(ret.shape[1], R)
+        q, r = z3.Int("kre!q"), z3.Int("kre!r")
+        rn = N.snap(ret)
+        yield "entries-are-the-columnwise-Kronecker-product", T.ForAll(
+            [q, r], z3.Implies(z3.And(0 <= q, q < Q(p - 1), 0 <= r, r < R), T.tz(rn.fn(q, r)) == W(p - 1, q, r)))
